@@ -1562,4 +1562,678 @@ mutual
         (wfCases_plain rest h.2.2.2)
 end
 
+/-! ## 2'. the statement trees are read as the statements, in canonical form
+
+  Three statements of Spec/JsStmt have the text of another one, with the same meaning: `buf += 't';` is `appendLit`
+  and `append` of a string literal without directives; `var x = '';` is `varEmpty` and `var` of the empty string;
+  `var x = l.length;` is `varLength` and `var` of `length` of a variable.  The grammar reads the special form.  And the
+  literal arguments of a directive are read back as source expressions AT POSITION 0, `|truncate:n` with the `true`
+  the generator writes for it.  `canonS` maps a statement to what is read; `canon_exec` (below): it has the same
+  meaning. -/
+
+def canonArgs (d : Directive) : List Expr :=
+  (d.args.filterMap litAst).filterMap litOf ++ (if d.name == sTruncate && d.args.length == 1 then [.bool 0 true] else [])
+
+def canonDir (d : Directive) : Directive := ⟨0, d.name, canonArgs d⟩
+
+mutual
+  def canonS : JsStmt → JsStmt
+    | .append b e ds =>
+      (match e, ds with
+        | .str t, [] => .appendLit b t
+        | e, ds => .append b e (ds.map canonDir))
+    | .var x e =>
+      (match e with
+        | .str [] => .varEmpty x
+        | .call1 .length (.local l) => .varLength x l
+        | e => .var x e)
+    | .ifs conds => .ifs (canonConds conds)
+    | .forUp i lim body => .forUp i lim (canonSs body)
+    | .ifPos lim body els => .ifPos lim (canonSs body) (canonSs els)
+    | .forStep i lim step idx init body => .forStep i lim step idx init (canonSs body)
+    | .switchS e cases => .switchS e (canonCases cases)
+    | s => s
+  def canonSs : JsStmts → JsStmts
+    | .nil => .nil
+    | .cons s r => .cons (canonS s) (canonSs r)
+  def canonConds : JsConds → JsConds
+    | .nil => .nil
+    | .els body => .els (canonSs body)
+    | .cons c body rest => .cons c (canonSs body) (canonConds rest)
+  def canonCases : JsCases → JsCases
+    | .nil => .nil
+    | .dflt body => .dflt (canonSs body)
+    | .cons labels body rest => .cons labels (canonSs body) (canonCases rest)
+end
+
+/-! ### names -/
+
+theorem qnameOf_foldl : ∀ (segs : List Bytes) (acc : PE) (q : Bytes), qnameOf acc = some q →
+    qnameOf (segs.foldl PE.member acc) = some (q ++ segs.flatMap (46 :: ·))
+  | [], acc, q, h => by simpa using h
+  | s :: r, acc, q, h => by
+    have := qnameOf_foldl r (.member acc s) (q ++ 46 :: s) (by simp [qnameOf, h])
+    simpa using this
+
+theorem qnameOf_plainQ {q : Bytes} (h : QName q) : qnameOf (plainQ q) = some q := by
+  obtain ⟨g, segs, e, _, _, _⟩ := h
+  have hj := qSplit_join q g segs e
+  unfold plainQ
+  rw [e, qnameOf_foldl segs (.ident g) g rfl, ← hj]
+
+/-! ### the library calls -/
+
+theorem litOf_litAst {a : Expr} {j : JsExpr} (h : litAst a = some j) : ∃ e, litOf j = some e := by
+  cases a <;> simp [litAst] at h <;> subst h <;> exact ⟨_, rfl⟩
+
+theorem readLits_plainArgs : ∀ (js : List JsExpr), (∀ j ∈ js, Img j) → (∀ j ∈ js, ∃ e, litOf j = some e) →
+    readLits (plainArgs (js.map plain)) = some (js.filterMap litOf)
+  | [], _, _ => rfl
+  | j :: r, hi, hl => by
+    obtain ⟨e, he⟩ := hl j (List.mem_cons_self ..)
+    have ih := readLits_plainArgs r (fun x hx => hi x (List.mem_cons_of_mem _ hx)) (fun x hx => hl x (List.mem_cons_of_mem _ hx))
+    simp only [List.map_cons, plainArgs, readLits, read_plain j (hi j (List.mem_cons_self ..)), ih, he, List.filterMap_cons]
+
+theorem readLits_append : ∀ (xs ys : List PE) (a b : List Expr), readLits (plainArgs xs) = some a →
+    readLits (plainArgs ys) = some b → readLits (plainArgs (xs ++ ys)) = some (a ++ b)
+  | [], ys, a, b, ha, hb => by simp only [plainArgs, readLits, Option.some.injEq] at ha; subst ha; simpa using hb
+  | x :: r, ys, a, b, ha, hb => by
+    simp only [List.cons_append, plainArgs, readLits] at ha ⊢
+    cases hx : readE x with
+    | none => simp [hx] at ha
+    | some jx =>
+      cases hr : readLits (plainArgs r) with
+      | none => simp [hx, hr] at ha
+      | some es =>
+        simp only [hx, hr] at ha
+        cases hl : litOf jx with
+        | none => simp [hl] at ha
+        | some e =>
+          simp only [hl, Option.some.injEq] at ha
+          subst ha
+          simp [readLits_append r ys es b hr hb, hl]
+
+theorem readLits_dirArgs (d : Directive) (h : DirOk d) : readLits (plainArgs (dirArgs d)) = some (canonArgs d) := by
+  unfold dirArgs canonArgs
+  apply readLits_append
+  · apply readLits_plainArgs
+    · intro j hj
+      simp only [List.mem_filterMap] at hj
+      obtain ⟨a, ha, hl⟩ := hj
+      exact h.2 a ha j hl
+    · intro j hj
+      simp only [List.mem_filterMap] at hj
+      obtain ⟨a, _, hl⟩ := hj
+      exact litOf_litAst hl
+  · split <;> rfl
+
+theorem pnum_not_call (i : Int) (f : PE) (as : PArgs) : pnum i ≠ .call f as := by
+  unfold pnum; split <;> (intro e; cases e)
+
+/-- the calls of the expression fragment are no directives -/
+theorem plain_call_nodir : ∀ (e : JsExpr) (f a : PE) (as : PArgs), plain e = .call f (.cons a as) →
+    dirOfCallee f = none
+  | .num i, f, a, as, h => absurd h (pnum_not_call i f _)
+  | .call1 .floor _, _, _, _, h => by simp only [plain] at h; cases h; decide
+  | .call1 .ceil _, _, _, _, h => by simp only [plain] at h; cases h; decide
+  | .call1 .round _, _, _, _, h => by simp only [plain] at h; cases h; decide
+  | .call2 .min _ _, _, _, _, h => by simp only [plain] at h; cases h; decide
+  | .call2 .max _ _, _, _, _, h => by simp only [plain] at h; cases h; decide
+  | .null, _, _, _, h => by cases h
+  | .bool _, _, _, _, h => by cases h
+  | .str _, _, _, _, h => by cases h
+  | .neg _, _, _, _, h => by cases h
+  | .not _, _, _, _, h => by cases h
+  | .bin _ _ _, _, _, _, h => by cases h
+  | .cond _ _ _, _, _, _, h => by cases h
+  | .nonNullElse _ _ _, _, _, _, h => by cases h
+  | .local _, _, _, _, h => by cases h
+  | .optData _, _, _, _, h => by cases h
+  | .member _ _, _, _, _, h => by cases h
+  | .index _ _, _, _, _, h => by cases h
+  | .guard _ _, _, _, _, h => by cases h
+  | .paren _, _, _, _, h => by cases h
+  | .call1 .length _, _, _, _, h => by cases h
+  | .call1 .nonNull _, _, _, _, h => by cases h
+  | .loopFirst _, _, _, _, h => by cases h
+  | .loopLastEach _ _, _, _, _, h => by cases h
+  | .loopLastRange _ _ _, _, _, _, h => by cases h
+
+theorem readPrint_nodir {p : PE} {jp : JsExpr} (hr : readE p = some jp)
+    (h : ∀ f a as, p = .call f (.cons a as) → dirOfCallee f = none) :
+    readPrint p = some (jp, []) := by
+  unfold readPrint
+  split
+  · rename_i f a as
+    rw [h f a as rfl]
+    simp [hr]
+  · simp [hr]
+
+theorem readPrint_foldl : ∀ (ds : List Directive) (P : PE) (e0 : JsExpr) (ds0 : List Directive), (∀ d ∈ ds, DirOk d) →
+    readPrint P = some (e0, ds0) → readPrint (plainPrint P ds) = some (e0, ds0 ++ ds.map canonDir)
+  | [], P, e0, ds0, _, hp => by simpa [plainPrint] using hp
+  | d :: ds, P, e0, ds0, h, hp => by
+    have hd := h d (List.mem_cons_self ..)
+    obtain ⟨hq, hj⟩ := dirOk_js hd
+    have step : readPrint (.call (plainQ (directiveJsName d.name)) (.cons P (plainArgs (dirArgs d)))) =
+        some (e0, ds0 ++ [canonDir d]) := by
+      unfold readPrint
+      simp only [dirOfCallee, qnameOf_plainQ hq, hj, hp, readLits_dirArgs d hd, canonDir]
+    have := readPrint_foldl ds _ e0 (ds0 ++ [canonDir d]) (fun x hx => h x (List.mem_cons_of_mem _ hx)) step
+    simpa [plainPrint] using this
+
+theorem readPrint_plainPrint (e : JsExpr) (he : Img e) (ds : List Directive) (h : ∀ d ∈ ds, DirOk d) :
+    readPrint (plainPrint (plain e) ds) = some (e, ds.map canonDir) := by
+  have := readPrint_foldl ds (plain e) e [] h (readPrint_nodir (read_plain e he) (plain_call_nodir e))
+  simpa using this
+
+/-! ### shapes of expression trees -/
+
+theorem plain_str : ∀ (e : JsExpr) (t : Bytes), plain e = .str t → e = .str t
+  | .null, _, h => by cases h
+  | .bool _, _, h => by cases h
+  | .num i, _, h => by unfold plain pnum at h; split at h <;> cases h
+  | .str s, _, h => by simp only [plain, PE.str.injEq] at h; rw [h]
+  | .neg _, _, h => by cases h
+  | .not _, _, h => by cases h
+  | .bin _ _ _, _, h => by cases h
+  | .cond _ _ _, _, h => by cases h
+  | .nonNullElse _ _ _, _, h => by cases h
+  | .local g', _, h => by cases h
+  | .optData k', _, h => by cases h
+  | .member x k', _, h => by cases h
+  | .index x i', _, h => by cases h
+  | .guard _ _, _, h => by cases h
+  | .paren _, _, h => by cases h
+  | .call1 .floor _, _, h => by cases h
+  | .call1 .ceil _, _, h => by cases h
+  | .call1 .round _, _, h => by cases h
+  | .call1 .length a, _, h => by cases h
+  | .call1 .nonNull _, _, h => by cases h
+  | .call2 .min _ _, _, h => by cases h
+  | .call2 .max _ _, _, h => by cases h
+  | .loopFirst _, _, h => by cases h
+  | .loopLastEach _ _, _, h => by cases h
+  | .loopLastRange _ _ _, _, h => by cases h
+theorem plain_ident : ∀ (e : JsExpr) (g : Bytes), plain e = .ident g → e = .local g
+  | .null, _, h => by cases h
+  | .bool _, _, h => by cases h
+  | .num i, _, h => by unfold plain pnum at h; split at h <;> cases h
+  | .str s, _, h => by cases h
+  | .neg _, _, h => by cases h
+  | .not _, _, h => by cases h
+  | .bin _ _ _, _, h => by cases h
+  | .cond _ _ _, _, h => by cases h
+  | .nonNullElse _ _ _, _, h => by cases h
+  | .local g', _, h => by simp only [plain, PE.ident.injEq] at h; rw [h]
+  | .optData k', _, h => by cases h
+  | .member x k', _, h => by cases h
+  | .index x i', _, h => by cases h
+  | .guard _ _, _, h => by cases h
+  | .paren _, _, h => by cases h
+  | .call1 .floor _, _, h => by cases h
+  | .call1 .ceil _, _, h => by cases h
+  | .call1 .round _, _, h => by cases h
+  | .call1 .length a, _, h => by cases h
+  | .call1 .nonNull _, _, h => by cases h
+  | .call2 .min _ _, _, h => by cases h
+  | .call2 .max _ _, _, h => by cases h
+  | .loopFirst _, _, h => by cases h
+  | .loopLastEach _ _, _, h => by cases h
+  | .loopLastRange _ _ _, _, h => by cases h
+theorem plain_not_obj : ∀ (e : JsExpr) (ps : PProps), plain e = .obj ps → False
+  | .null, _, h => by cases h
+  | .bool _, _, h => by cases h
+  | .num i, _, h => by unfold plain pnum at h; split at h <;> cases h
+  | .str s, _, h => by cases h
+  | .neg _, _, h => by cases h
+  | .not _, _, h => by cases h
+  | .bin _ _ _, _, h => by cases h
+  | .cond _ _ _, _, h => by cases h
+  | .nonNullElse _ _ _, _, h => by cases h
+  | .local g', _, h => by cases h
+  | .optData k', _, h => by cases h
+  | .member x k', _, h => by cases h
+  | .index x i', _, h => by cases h
+  | .guard _ _, _, h => by cases h
+  | .paren _, _, h => by cases h
+  | .call1 .floor _, _, h => by cases h
+  | .call1 .ceil _, _, h => by cases h
+  | .call1 .round _, _, h => by cases h
+  | .call1 .length a, _, h => by cases h
+  | .call1 .nonNull _, _, h => by cases h
+  | .call2 .min _ _, _, h => by cases h
+  | .call2 .max _ _, _, h => by cases h
+  | .loopFirst _, _, h => by cases h
+  | .loopLastEach _ _, _, h => by cases h
+  | .loopLastRange _ _ _, _, h => by cases h
+theorem plain_not_call3 : ∀ (e : JsExpr) (f d x y : PE) (r : PArgs), plain e = .call f (.cons d (.cons x (.cons y r))) → False
+  | .null, _, _, _, _, _, h => by cases h
+  | .bool _, _, _, _, _, _, h => by cases h
+  | .num i, _, _, _, _, _, h => by unfold plain pnum at h; split at h <;> cases h
+  | .str s, _, _, _, _, _, h => by cases h
+  | .neg _, _, _, _, _, _, h => by cases h
+  | .not _, _, _, _, _, _, h => by cases h
+  | .bin _ _ _, _, _, _, _, _, h => by cases h
+  | .cond _ _ _, _, _, _, _, _, h => by cases h
+  | .nonNullElse _ _ _, _, _, _, _, _, h => by cases h
+  | .local g', _, _, _, _, _, h => by cases h
+  | .optData k', _, _, _, _, _, h => by cases h
+  | .member x k', _, _, _, _, _, h => by cases h
+  | .index x i', _, _, _, _, _, h => by cases h
+  | .guard _ _, _, _, _, _, _, h => by cases h
+  | .paren _, _, _, _, _, _, h => by cases h
+  | .call1 .floor _, _, _, _, _, _, h => by cases h
+  | .call1 .ceil _, _, _, _, _, _, h => by cases h
+  | .call1 .round _, _, _, _, _, _, h => by cases h
+  | .call1 .length a, _, _, _, _, _, h => by cases h
+  | .call1 .nonNull _, _, _, _, _, _, h => by cases h
+  | .call2 .min _ _, _, _, _, _, _, h => by cases h
+  | .call2 .max _ _, _, _, _, _, _, h => by cases h
+  | .loopFirst _, _, _, _, _, _, h => by cases h
+  | .loopLastEach _ _, _, _, _, _, _, h => by cases h
+  | .loopLastRange _ _ _, _, _, _, _, _, h => by cases h
+theorem plain_not_indexId : ∀ (e : JsExpr) (x : PE) (i : Bytes), plain e = .index x (.ident i) → False
+  | .null, _, _, h => by cases h
+  | .bool _, _, _, h => by cases h
+  | .num i, _, _, h => by unfold plain pnum at h; split at h <;> cases h
+  | .str s, _, _, h => by cases h
+  | .neg _, _, _, h => by cases h
+  | .not _, _, _, h => by cases h
+  | .bin _ _ _, _, _, h => by cases h
+  | .cond _ _ _, _, _, h => by cases h
+  | .nonNullElse _ _ _, _, _, h => by cases h
+  | .local g', _, _, h => by cases h
+  | .optData k', _, _, h => by cases h
+  | .member x k', _, _, h => by cases h
+  | .index x i', _, _, h => by cases h
+  | .guard _ _, _, _, h => by cases h
+  | .paren _, _, _, h => by cases h
+  | .call1 .floor _, _, _, h => by cases h
+  | .call1 .ceil _, _, _, h => by cases h
+  | .call1 .round _, _, _, h => by cases h
+  | .call1 .length a, _, _, h => by cases h
+  | .call1 .nonNull _, _, _, h => by cases h
+  | .call2 .min _ _, _, _, h => by cases h
+  | .call2 .max _ _, _, _, h => by cases h
+  | .loopFirst _, _, _, h => by cases h
+  | .loopLastEach _ _, _, _, h => by cases h
+  | .loopLastRange _ _ _, _, _, h => by cases h
+
+theorem plain_not_call_obj : ∀ (e : JsExpr) (f base : PE) (ps : PProps), plain e = .call f (.cons base (.cons (.obj ps) .nil)) → False
+  | .null, _, _, _, h => by cases h
+  | .bool _, _, _, _, h => by cases h
+  | .num i, _, _, _, h => by unfold plain pnum at h; split at h <;> cases h
+  | .str s, _, _, _, h => by cases h
+  | .neg _, _, _, _, h => by cases h
+  | .not _, _, _, _, h => by cases h
+  | .bin _ _ _, _, _, _, h => by cases h
+  | .cond _ _ _, _, _, _, h => by cases h
+  | .nonNullElse _ _ _, _, _, _, h => by cases h
+  | .local g', _, _, _, h => by cases h
+  | .optData k', _, _, _, h => by cases h
+  | .member x k', _, _, _, h => by cases h
+  | .index x i', _, _, _, h => by cases h
+  | .guard _ _, _, _, _, h => by cases h
+  | .paren _, _, _, _, h => by cases h
+  | .call1 .floor _, _, _, _, h => by cases h
+  | .call1 .ceil _, _, _, _, h => by cases h
+  | .call1 .round _, _, _, _, h => by cases h
+  | .call1 .length a, _, _, _, h => by cases h
+  | .call1 .nonNull _, _, _, _, h => by cases h
+  | .call2 .min _ b', _, _, _, h => by simp only [plain, PE.call.injEq, PArgs.cons.injEq] at h; exact plain_not_obj b' _ h.2.2.1
+  | .call2 .max _ b', _, _, _, h => by simp only [plain, PE.call.injEq, PArgs.cons.injEq] at h; exact plain_not_obj b' _ h.2.2.1
+  | .loopFirst _, _, _, _, h => by cases h
+  | .loopLastEach _ _, _, _, _, h => by cases h
+  | .loopLastRange _ _ _, _, _, _, h => by cases h
+
+/-! ### `buf += …`, `var x = …`, the data argument -/
+
+theorem readAppend_print (b : Bytes) {p : PE} {e : JsExpr} {ds : List Directive} (hp : readPrint p = some (e, ds))
+    (h1 : ∀ t, p ≠ .str t) (h2 : ∀ f d a1 a2, p ≠ .call f (.cons d (.cons (.ident a1) (.cons (.ident a2) .nil)))) :
+    readAppend b p = some (.append b e ds) := by
+  unfold readAppend
+  split
+  · exact absurd rfl (h1 _)
+  · exact absurd rfl (h2 _ _ _ _)
+  · simp [hp]
+
+theorem dirArgs_not_ident (d : Directive) : ∀ x ∈ dirArgs d, ∀ g, x ≠ .ident g := by
+  intro x hx g e
+  subst e
+  unfold dirArgs at hx
+  rcases List.mem_append.mp hx with hx | hx
+  · simp only [List.mem_map, List.mem_filterMap] at hx
+    obtain ⟨j, ⟨a, _, hl⟩, hj⟩ := hx
+    have := plain_ident j g hj
+    subst this
+    cases a <;> simp [litAst] at hl
+  · split at hx
+    · simp at hx
+    · cases hx
+
+theorem plainPrint_shape (e : JsExpr) : ∀ (ds : List Directive) (P : PE),
+    (∀ f d a1 a2, P ≠ .call f (.cons d (.cons (.ident a1) (.cons (.ident a2) .nil)))) →
+    ∀ f d a1 a2, plainPrint P ds ≠ .call f (.cons d (.cons (.ident a1) (.cons (.ident a2) .nil)))
+  | [], P, hP => by simpa [plainPrint] using hP
+  | d :: ds, P, _ => by
+    simp only [plainPrint, List.foldl_cons]
+    apply plainPrint_shape e ds
+    intro f d' a1 a2 h
+    simp only [PE.call.injEq, PArgs.cons.injEq] at h
+    obtain ⟨_, _, h3⟩ := h
+    cases hd : dirArgs d with
+    | nil => rw [hd] at h3; simp [plainArgs] at h3
+    | cons x r =>
+      rw [hd] at h3
+      simp only [plainArgs, PArgs.cons.injEq] at h3
+      exact dirArgs_not_ident d x (by rw [hd]; exact List.mem_cons_self ..) a1 h3.1
+
+theorem plainPrint_not_str : ∀ (ds : List Directive) (P : PE) (t : Bytes), ds ≠ [] → plainPrint P ds ≠ .str t
+  | [], _, _, h => absurd rfl h
+  | [d], P, t, _ => by simp [plainPrint]
+  | d :: d' :: ds, P, t, _ => by
+    simp only [plainPrint, List.foldl_cons]
+    exact plainPrint_not_str (d' :: ds) _ t (by simp)
+
+/-- `buf += dN(…(e)…);` -/
+theorem readAppend_plain (b : Bytes) (e : JsExpr) (he : Img e) (ds : List Directive) (hd : ∀ d ∈ ds, DirOk d) :
+    readAppend b (plainPrint (plain e) ds) = some (canonS (.append b e ds)) := by
+  by_cases hc : (∃ t, e = .str t) ∧ ds = []
+  · obtain ⟨⟨t, rfl⟩, rfl⟩ := hc
+    simp [plainPrint, plain, readAppend, canonS]
+  · have hcanon : canonS (.append b e ds) = .append b e (ds.map canonDir) := by
+      unfold canonS
+      split
+      · exact absurd ⟨⟨_, rfl⟩, rfl⟩ hc
+      · rfl
+    rw [hcanon]
+    apply readAppend_print b (readPrint_plainPrint e he ds hd)
+    · intro t h
+      by_cases hds : ds = []
+      · subst hds
+        exact hc ⟨⟨t, plain_str e t (by simpa [plainPrint] using h)⟩, rfl⟩
+      · exact plainPrint_not_str ds _ t hds h
+    · exact plainPrint_shape e ds (plain e) (fun f d a1 a2 h => plain_not_call3 e f d _ _ _ h)
+
+theorem readVar_fall (x : Bytes) {p : PE} {jx : JsExpr} (h : readE p = some jx) (h1 : p ≠ .str [])
+    (h2 : ∀ l k, p ≠ .member (.ident l) k) (h3 : ∀ l i, p ≠ .index (.ident l) (.ident i)) :
+    readVar x p = some (.var x jx) := by
+  unfold readVar
+  split
+  · exact absurd rfl h1
+  · exact absurd rfl (h2 _ _)
+  · exact absurd rfl (h3 _ _)
+  · simp [h]
+
+theorem plain_member_ident : ∀ (e : JsExpr) (l k : Bytes), Img e → plain e = .member (.ident l) k →
+    (e = .optData k ∧ l = sOptData) ∨ (e = .member (.local l) k ∧ k ≠ sLength ∧ JsName l) ∨
+      (e = .call1 .length (.local l) ∧ k = sLength ∧ JsName l)
+  | .optData k', l, k, _, h => by
+    simp only [plain, PE.member.injEq, PE.ident.injEq] at h
+    exact Or.inl ⟨by rw [h.2], h.1.symm⟩
+  | .member x k', l, k, hi, h => by
+    simp only [Img] at hi
+    simp only [plain, PE.member.injEq] at h
+    have := plain_ident x l h.1
+    subst this
+    have hx := hi.1
+    simp only [Img] at hx
+    exact Or.inr (Or.inl ⟨by rw [h.2], by rw [← h.2]; exact hi.2.2.2, hx⟩)
+  | .call1 .length a, l, k, hi, h => by
+    simp only [Img] at hi
+    simp only [plain, PE.member.injEq] at h
+    have := plain_ident a l h.1
+    subst this
+    have hx := hi.1
+    simp only [Img] at hx
+    exact Or.inr (Or.inr ⟨rfl, h.2.symm, hx⟩)
+  | .num i, _, _, _, h => by unfold plain pnum at h; split at h <;> cases h
+  | .null, _, _, _, h => by cases h
+  | .bool _, _, _, _, h => by cases h
+  | .str _, _, _, _, h => by cases h
+  | .neg _, _, _, _, h => by cases h
+  | .not _, _, _, _, h => by cases h
+  | .bin _ _ _, _, _, _, h => by cases h
+  | .cond _ _ _, _, _, _, h => by cases h
+  | .nonNullElse _ _ _, _, _, _, h => by cases h
+  | .local _, _, _, _, h => by cases h
+  | .index _ _, _, _, _, h => by cases h
+  | .guard _ _, _, _, _, h => by cases h
+  | .paren _, _, _, _, h => by cases h
+  | .call1 .floor _, _, _, _, h => by cases h
+  | .call1 .ceil _, _, _, _, h => by cases h
+  | .call1 .round _, _, _, _, h => by cases h
+  | .call1 .nonNull _, _, _, _, h => by cases h
+  | .call2 .min _ _, _, _, _, h => by cases h
+  | .call2 .max _ _, _, _, _, h => by cases h
+  | .loopFirst _, _, _, _, h => by cases h
+  | .loopLastEach _ _, _, _, _, h => by cases h
+  | .loopLastRange _ _ _, _, _, _, h => by cases h
+
+/-- `var x = e;` -/
+theorem readVar_plain (x : Bytes) (e : JsExpr) (he : Img e) : readVar x (plain e) = some (canonS (.var x e)) := by
+  by_cases h1 : plain e = .str []
+  · have := plain_str e [] h1
+    subst this
+    simp [plain, readVar, canonS]
+  · by_cases h2 : ∃ l k, plain e = .member (.ident l) k
+    · obtain ⟨l, k, h2⟩ := h2
+      rcases plain_member_ident e l k he h2 with ⟨rfl, rfl⟩ | ⟨rfl, hk, hl⟩ | ⟨rfl, rfl, hl⟩
+      · have : readE (.member (.ident sOptData) k) = some (.optData k) := read_plain (.optData k) he
+        simp only [plain, readVar, bne_self_eq_false, Bool.and_false, Bool.false_eq_true, if_false, this, canonS]
+      · have : readE (.member (.ident l) k) = some (.member (.local l) k) := read_plain (.member (.local l) k) he
+        simp only [plain, readVar, this, canonS]
+        simp [hk]
+      · have hne : (l != sOptData) = true := by simp [hl.2.2]
+        simp [plain, readVar, hne, canonS]
+    · have hcanon : canonS (.var x e) = .var x e := by
+        unfold canonS
+        split
+        · exact absurd (by simp [plain]) h1
+        · exact absurd ⟨_, _, rfl⟩ h2
+        · rfl
+      rw [hcanon]
+      exact readVar_fall x (read_plain e he) h1 (fun l k h => h2 ⟨l, k, h⟩) (fun l i h => plain_not_indexId e _ i h)
+
+theorem readBase_plain (b : DataBase) (h : ImgBase b) : readBase (plainBase b) = some b := by
+  cases b with
+  | empty => simp [plainBase, readBase]
+  | all => simp [plainBase, readBase]
+  | expr e =>
+    simp only [plainBase]
+    by_cases hi : ∃ g, plain e = .ident g
+    · obtain ⟨g, hg⟩ := hi
+      have := plain_ident e g hg
+      subst this
+      simp only [ImgBase, Img] at h
+      simp [plain, readBase, h.2.2]
+    · unfold readBase
+      split
+      · rename_i hp; exact absurd hp (fun hp => plain_not_obj e _ hp)
+      · rename_i g hp; exact absurd ⟨g, hp⟩ hi
+      · simp [read_plain e h]
+
+theorem readProps_plain : ∀ ps : List (Bytes × JsExpr), ImgParams ps → readProps (plainProps ps) = some ps
+  | [], _ => rfl
+  | (k, v) :: r, h => by
+    simp only [ImgParams] at h
+    simp [plainProps, readProps, read_plain v h.2.1, readProps_plain r h.2.2]
+
+theorem plainBase_not_augment (b : DataBase) (f base : PE) (ps : PProps) :
+    plainBase b ≠ .call f (.cons base (.cons (.obj ps) .nil)) := by
+  cases b with
+  | empty => intro h; cases h
+  | all => intro h; cases h
+  | expr e =>
+    exact plain_not_call_obj e f base ps
+
+theorem readData_plain (b : DataBase) (ps : List (Bytes × JsExpr)) (hb : ImgBase b) (hp : ImgParams ps) :
+    readData (plainData b ps) = some (b, ps) := by
+  cases ps with
+  | nil =>
+    simp only [plainData]
+    unfold readData
+    split
+    · rename_i h; exact absurd h (plainBase_not_augment b _ _ _)
+    · simp [readBase_plain b hb]
+  | cons p r =>
+    simp only [plainData]
+    unfold readData
+    simp [qnameOf_plainQ qname_augment, readBase_plain b hb, readProps_plain _ hp]
+
+/-! ### statements -/
+
+theorem snoc_ne_nil (ss : PStmts) (s : PS) : PStmts.snoc ss s ≠ .nil := by
+  cases ss <;> (intro h; cases h)
+
+theorem readCases_labels (B : PStmts) (R : PClauses) (b' : JsStmts) (r' : JsCases) (hB : B ≠ .nil)
+    (hb : readBrk B = some b') (hr : readCases R = some r') :
+    ∀ (labels : List JsExpr), labels ≠ [] → ImgList labels →
+      readCases (plainLabels (labels.map plain) B R) = some (.cons labels b' r')
+  | [], h, _ => absurd rfl h
+  | [l], _, hi => by
+    simp only [ImgList] at hi
+    simp only [List.map_cons, List.map_nil, plainLabels]
+    cases B with
+    | nil => exact absurd rfl hB
+    | cons s r =>
+      rw [readCases] <;> first | (intro h; cases h; done) | skip
+      simp [read_plain l hi.1, hb, hr]
+  | l :: l' :: ls, _, hi => by
+    simp only [ImgList] at hi
+    have ih := readCases_labels B R b' r' hB hb hr (l' :: ls) (by simp) (by simp only [ImgList]; exact hi.2)
+    simp only [List.map_cons, plainLabels] at ih ⊢
+    rw [readCases]
+    simp [read_plain l hi.1, ih]
+
+theorem plainS_ne_brk (s : JsStmt) : plainS s ≠ .brk := by
+  cases s with
+  | ifs conds =>
+    simp only [plainS]
+    cases conds with
+    | nil => simp [plainConds]
+    | els _ => simp [plainConds]
+    | cons c b r => cases r <;> simp [plainConds]
+  | _ => simp [plainS]
+
+theorem jsName_ne {l : Bytes} (h : JsName l) : (l != sOptData) = true := by simp [h.2.2]
+
+mutual
+  theorem readS_plain : ∀ (s : JsStmt), ImgS s → readS (plainS s) = some (canonS s)
+    | .appendLit b t, _ => by simp [plainS, readS, readAppend, canonS]
+    | .append b e ds, h => by
+      simp only [ImgS] at h
+      simp only [plainS, readS]
+      exact readAppend_plain b e h.2.1 ds h.2.2
+    | .var x e, h => by
+      simp only [ImgS] at h
+      simp only [plainS, readS]
+      exact readVar_plain x e h.2
+    | .varEmpty x, _ => by simp [plainS, readS, readVar, canonS]
+    | .ifs conds, h => by
+      simp only [ImgS] at h
+      cases conds with
+      | nil => exact absurd h.1 (by simp)
+      | els _ => exact absurd h.1 (by simp)
+      | cons c body rest =>
+        have hc := h.2
+        simp only [ImgConds] at hc
+        have hb := readSs_plain body hc.2.1
+        cases rest with
+        | nil =>
+          simp only [plainS, plainConds]
+          rw [readS]
+          simp [read_plain c hc.1, hb, canonS, canonConds]
+        | els e =>
+          have he := readSs_plain e (by simpa [ImgConds] using hc.2.2)
+          simp only [plainS, plainConds]
+          rw [readS]
+          · simp [read_plain c hc.1, hb, readElse, he, canonS, canonConds]
+          · intro lim els' hh _
+            have := (plain_bin c _ _ _ hh).1
+            cases this
+        | cons c' body' rest' =>
+          have he := readElse_plain (.cons c' body' rest') hc.2.2 (by simp)
+          simp only [plainS]
+          rw [show plainConds (.cons c body (.cons c' body' rest')) =
+            .ifElse (plain c) (.block (plainSs body)) (plainConds (.cons c' body' rest')) by simp [plainConds]]
+          rw [readS]
+          · simp [read_plain c hc.1, hb, he, canonS, canonConds]
+          · intro lim els' hh _
+            have := (plain_bin c _ _ _ hh).1
+            cases this
+    | .varLength x l, h => by
+      simp only [ImgS] at h
+      simp [plainS, readS, readVar, jsName_ne h.2, canonS]
+    | .varIndex x l i, _ => by simp [plainS, readS, readVar, canonS]
+    | .forUp i lim body, h => by
+      simp only [ImgS] at h
+      simp [plainS, readS, readSs_plain body h.2.2, canonS]
+    | .ifPos lim body els, h => by
+      simp only [ImgS] at h
+      simp [plainS, readS, readSs_plain body h.2.1, readSs_plain els h.2.2, canonS]
+    | .forStep i lim step idx init body, h => by
+      simp only [ImgS] at h
+      simp [plainS, readS, read_plain init h.2.2.2.2.1, readSs_plain body h.2.2.2.2.2, canonS]
+    | .switchS e cases, h => by
+      simp only [ImgS] at h
+      simp [plainS, readS, read_plain e h.1, readCases_plain cases h.2, canonS]
+    | .call b callee base params, h => by
+      simp only [ImgS] at h
+      simp [plainS, readS, readAppend, qnameOf_plainQ h.2.1, readData_plain base params h.2.2.1 h.2.2.2, canonS]
+  theorem readSs_plain : ∀ (ss : JsStmts), ImgSs ss → readSs (plainSs ss) = some (canonSs ss)
+    | .nil, _ => rfl
+    | .cons s r, h => by
+      simp only [ImgSs] at h
+      simp [plainSs, readSs, readS_plain s h.1, readSs_plain r h.2, canonSs]
+  theorem readElse_plain : ∀ (conds : JsConds), ImgConds conds → conds ≠ .nil →
+      readElse (plainConds conds) = some (canonConds conds)
+    | .nil, _, hne => absurd rfl hne
+    | .els body, h, _ => by
+      simp only [ImgConds] at h
+      simp [plainConds, readElse, readSs_plain body h, canonConds]
+    | .cons c body .nil, h, _ => by
+      simp only [ImgConds] at h
+      simp [plainConds, readElse, read_plain c h.1, readSs_plain body h.2.1, canonConds]
+    | .cons c body (.els e), h, _ => by
+      simp only [ImgConds] at h
+      simp [plainConds, readElse, read_plain c h.1, readSs_plain body h.2.1, readSs_plain e h.2.2, canonConds]
+    | .cons c body (.cons c' body' rest'), h, _ => by
+      simp only [ImgConds] at h
+      have he := readElse_plain (.cons c' body' rest') (by simp only [ImgConds]; exact h.2.2) (by simp)
+      rw [show plainConds (.cons c body (.cons c' body' rest')) =
+        .ifElse (plain c) (.block (plainSs body)) (plainConds (.cons c' body' rest')) by simp [plainConds]]
+      simp [readElse, read_plain c h.1, readSs_plain body h.2.1, he, canonConds]
+  theorem readBrk_plain : ∀ (ss : JsStmts), ImgSs ss → readBrk (PStmts.snoc (plainSs ss) .brk) = some (canonSs ss)
+    | .nil, _ => by simp [plainSs, PStmts.snoc, readBrk, canonSs]
+    | .cons s r, h => by
+      simp only [ImgSs] at h
+      simp only [plainSs, PStmts.snoc]
+      rw [readBrk]
+      · simp [readS_plain s h.1, readBrk_plain r h.2, canonSs]
+      · intro hs
+        exact absurd hs (plainS_ne_brk s)
+  theorem readCases_plain : ∀ (cases : JsCases), ImgCases cases → readCases (plainCases cases) = some (canonCases cases)
+    | .nil, _ => rfl
+    | .dflt body, h => by
+      simp only [ImgCases] at h
+      simp [plainCases, readCases, readBrk_plain body h, canonCases]
+    | .cons labels body rest, h => by
+      simp only [ImgCases] at h
+      simp only [plainCases, canonCases]
+      exact readCases_labels _ _ _ _ (snoc_ne_nil _ _) (readBrk_plain body h.2.2.1) (readCases_plain rest h.2.2.2) labels h.1 h.2.1
+end
+
+/-- the text of a statement list of the image, read by the grammar, is that statement list (in canonical form) -/
+theorem jsparse_render_stmts (ss : JsStmts) (ind : Nat) (h : ImgSs ss) :
+    jsParseStmts (printPieces (renderStmts false ind ss)) = some (canonSs ss) := by
+  have hl := lexSs ss ind h []
+  simp only [List.append_nil, jsLex_nil] at hl
+  unfold jsParseStmts
+  rw [hl]
+  simp only [pre, Option.map_some, List.append_nil]
+  rw [parseStmts_tk _ (wfSs_plain ss h)]
+  exact readSs_plain ss h
+
 end SoyVerif.Props.C14c
